@@ -206,3 +206,82 @@ Proof. reflexivity. Qed.
 Print Assumptions C11_tr_uses.
 Print Assumptions C11_fragment_init_before_use.
 Print Assumptions C11_fragment_example.
+
+(* ---- order of TYPE declarations (types agent; /repo 3c0758d).  The type checker goes through the blob and enum
+   declarations once before everything else, so what a declaration means does not depend on whether a type it mentions
+   stands before or after it.  Proved for the case that made the difference: `A :: blob { .., k: B<args>, .. }`,
+   `B :: blob { .. }`, and an instance `A { .., k: lit, .. }` with a literal inside a top-level definition after A -- the
+   program is REJECTED with B before A, with B between A and the use, and with B after the use (before the fix the
+   orders with A first were accepted: the mention of B copied a type that was still unknown).  The enum analogue:
+   `E :: enum .., V P<args>, .. end`, `P :: blob`, `E.V lit`.  Types/ForwardDecl.v; also pinned in Props/C03.v. *)
+From Sylt Require Types.TyGraph Types.Tc Types.Ctx Types.TcInv Types.Mismatch Types.ForwardDecl.
+
+Theorem C11_type_mention_rejected_in_both_orders : forall
+    nameA vA spA tvarsA fieldsA k vB nameB spB tvarsB fieldsB pre0 lit post0 self isp ta,
+  In k (map fst fieldsA) ->
+  (forall ksp t, In (k, (ksp, t)) fieldsA -> exists targs tsp, t = TUser vB targs tsp) ->
+  Sylt.Types.Mismatch.lit_type lit = Some ta -> Sylt.Types.TcInv.rigid ta = true ->
+  let dA := SBlob nameA vA spA tvarsA fieldsA false in
+  let dB := SBlob nameB vB spB tvarsB fieldsB false in
+  let e := EBlob vA (pre0 ++ (k, lit) :: post0) self isp in
+  forall l1 l2 l3 l4 dname dvar dkind dty (C : Sylt.Types.Ctx.ectx) dsp sp0 fuel vars,
+    let use := SDefinition dname dvar dkind dty (Sylt.Types.Ctx.plug_e e (SStatementExpression e sp0) C) dsp in
+    Sylt.Types.Tc.typecheck fuel (mkResolved vars (l1 ++ dB :: l2 ++ dA :: l3 ++ use :: l4)) <> Sylt.Types.TyGraph.Ok tt /\
+    Sylt.Types.Tc.typecheck fuel (mkResolved vars (l1 ++ dA :: l2 ++ dB :: l3 ++ use :: l4)) <> Sylt.Types.TyGraph.Ok tt /\
+    Sylt.Types.Tc.typecheck fuel (mkResolved vars (l1 ++ dA :: l2 ++ use :: l3 ++ dB :: l4)) <> Sylt.Types.TyGraph.Ok tt.
+Proof. exact Sylt.Types.ForwardDecl.C03_blob_mention_both_orders. Qed.
+
+(* B anywhere among the statements *)
+Theorem C11_type_mention_rejected_wherever_declared : forall
+    nameA vA spA tvarsA fieldsA k vB nameB spB tvarsB fieldsB pre0 lit post0 self isp ta,
+  In k (map fst fieldsA) ->
+  (forall ksp t, In (k, (ksp, t)) fieldsA -> exists targs tsp, t = TUser vB targs tsp) ->
+  Sylt.Types.Mismatch.lit_type lit = Some ta -> Sylt.Types.TcInv.rigid ta = true ->
+  let dA := SBlob nameA vA spA tvarsA fieldsA false in
+  let dB := SBlob nameB vB spB tvarsB fieldsB false in
+  let e := EBlob vA (pre0 ++ (k, lit) :: post0) self isp in
+  forall pre mid post dname dvar dkind dty (C : Sylt.Types.Ctx.ectx) dsp sp0 fuel vars,
+    let stmts := pre ++ dA :: mid ++ SDefinition dname dvar dkind dty (Sylt.Types.Ctx.plug_e e (SStatementExpression e sp0) C) dsp :: post in
+    In dB stmts ->
+    Sylt.Types.Tc.typecheck fuel (mkResolved vars stmts) <> Sylt.Types.TyGraph.Ok tt.
+Proof. exact Sylt.Types.ForwardDecl.C03_forward_blob_mention_rejected. Qed.
+
+Theorem C11_enum_mention_rejected_wherever_declared : forall
+    nameE vE spE tvarsE variants v vB nameB spB tvarsB fieldsB lit vsp ta,
+  In v (map fst variants) ->
+  (forall ksp t, In (v, (ksp, t)) variants -> exists targs tsp, t = TUser vB targs tsp) ->
+  Sylt.Types.Mismatch.lit_type lit = Some ta -> Sylt.Types.TcInv.rigid ta = true ->
+  let dE := SEnum nameE vE spE tvarsE variants in
+  let dB := SBlob nameB vB spB tvarsB fieldsB false in
+  let e := EVariant vE v lit vsp in
+  forall pre mid post dname dvar dkind dty (C : Sylt.Types.Ctx.ectx) dsp sp0 fuel vars,
+    let stmts := pre ++ dE :: mid ++ SDefinition dname dvar dkind dty (Sylt.Types.Ctx.plug_e e (SStatementExpression e sp0) C) dsp :: post in
+    In dB stmts ->
+    Sylt.Types.Tc.typecheck fuel (mkResolved vars stmts) <> Sylt.Types.TyGraph.Ok tt.
+Proof. exact Sylt.Types.ForwardDecl.C03_forward_enum_mention_rejected. Qed.
+
+(* the hypotheses are satisfiable: A :: blob { b: B } ; B :: blob { x: int } ; start :: fn do A { b: 1 } end, both orders
+   rejected with the same error; with a B for the field both orders are accepted *)
+Definition c11_sp (l : N) : span := mkSpan 0 l l 1 2.
+Definition c11_declA : stmt := SBlob "A" 1 (c11_sp 1) [] [("b", (c11_sp 1, TUser 2 [] (c11_sp 1)))] false.
+Definition c11_declB : stmt := SBlob "B" 2 (c11_sp 2) [] [("x", (c11_sp 2, TResolved BInt (c11_sp 2)))] false.
+Definition c11_prog (decls body : list stmt) : resolved :=
+  mkResolved [mkVar 0 "start" (c11_sp 4) true Const; mkVar 1 "A" (c11_sp 1) true Const; mkVar 2 "B" (c11_sp 2) true Const;
+              mkVar 3 "self" (c11_sp 3) false Const; mkVar 4 "self" (c11_sp 3) false Const]
+             (decls ++ [SDefinition "start" 0 Const (TImplied (c11_sp 4))
+                          (EFunction "lambda" [] (TResolved BVoid (c11_sp 4)) body false (c11_sp 4)) (c11_sp 4)]).
+Definition c11_bad : list stmt := [SStatementExpression (EBlob 1 [("b", EInt 1 (c11_sp 3))] 3 (c11_sp 3)) (c11_sp 3)].
+Definition c11_good : list stmt :=
+  [SStatementExpression (EBlob 1 [("b", EBlob 2 [("x", EInt 1 (c11_sp 3))] 4 (c11_sp 3))] 3 (c11_sp 3)) (c11_sp 3)].
+Example C11_type_mention_example :
+  Sylt.Types.Tc.typecheck 60 (c11_prog [c11_declA; c11_declB] c11_bad) = Sylt.Types.Tc.typecheck 60 (c11_prog [c11_declB; c11_declA] c11_bad) /\
+  Sylt.Types.Tc.typecheck 60 (c11_prog [c11_declA; c11_declB] c11_bad)
+    = Sylt.Types.TyGraph.Err (Sylt.Types.TyGraph.mkErr Sylt.Types.TyGraph.KMismatch (c11_sp 3)) [] /\
+  Sylt.Types.Tc.typecheck 60 (c11_prog [c11_declA; c11_declB] c11_good) = Sylt.Types.TyGraph.Ok tt /\
+  Sylt.Types.Tc.typecheck 60 (c11_prog [c11_declB; c11_declA] c11_good) = Sylt.Types.TyGraph.Ok tt.
+Proof. repeat split; vm_compute; reflexivity. Qed.
+
+Print Assumptions C11_type_mention_rejected_in_both_orders.
+Print Assumptions C11_type_mention_rejected_wherever_declared.
+Print Assumptions C11_enum_mention_rejected_wherever_declared.
+Print Assumptions C11_type_mention_example.
